@@ -126,48 +126,66 @@ fn timestamps(acc: &mut Acc, tier: Tier) {
                 a.fail("C14/timestamp/parse-changes-instant", fi, id(), format!("{text} parsed to instant {} ms, denotes {instant} ms", instant_ms(&parsed)), json!({"text": text}));
                 continue;
             }
-            // every format: the text denotes the same instant (to the format's precision), and parse∘format = id
-            for (fname, f) in [("date-time", TimestampFormat::DateTime), ("http-date", TimestampFormat::HttpDate), ("epoch-seconds", TimestampFormat::EpochSeconds)] {
-                let out = match fmt(&parsed, f) {
-                    Ok(o) => o,
-                    Err(e) => {
-                        a.fail(&format!("C14/timestamp/{fname}/format-error"), fi, id(), format!("cannot format: {e}"), json!({"text": text}));
-                        continue;
+            // the same value built in the other ways the public API offers: from a `time::OffsetDateTime` that carries the
+            // offset (what a backend holding local times passes) and from a `SystemTime`
+            let mut routes: Vec<(&str, Timestamp)> = vec![("parsed", parsed.clone())];
+            if let Ok(utc) = time::OffsetDateTime::from_unix_timestamp_nanos(i128::from(instant) * 1_000_000) {
+                if let Ok(o) = time::UtcOffset::from_whole_seconds((off * 60) as i32) {
+                    if let Some(local) = utc.checked_to_offset(o) {
+                        routes.push(("from-offset-date-time", Timestamp::from(local)));
                     }
-                };
-                let want_ms = if f == TimestampFormat::HttpDate { instant.div_euclid(1000) * 1000 } else { instant };
-                let denotes_ok = match f {
-                    TimestampFormat::DateTime => out == ref_rfc3339(instant),
-                    TimestampFormat::HttpDate => out == ref_http_date(instant),
-                    TimestampFormat::EpochSeconds => out.parse::<f64>().is_ok_and(|x| ((x * 1000.0).round() as i64) == instant),
-                };
-                let offset_class = if off == 0 { "utc" } else { "non-utc-offset" };
-                if !denotes_ok {
-                    a.outcome(&format!("{fname}: text denotes another instant ({offset_class})"));
-                    let want = match f {
-                        TimestampFormat::DateTime => ref_rfc3339(instant),
-                        TimestampFormat::HttpDate => ref_http_date(instant),
-                        TimestampFormat::EpochSeconds => format!("{}", instant as f64 / 1000.0),
-                    };
-                    let fp = if off != 0 && f != TimestampFormat::EpochSeconds { format!("C14/timestamp/{fname}/offset-not-normalised-to-utc") } else { format!("C14/timestamp/{fname}/formatted-text-denotes-another-instant") };
-                    a.fail(&fp, fi, id(), format!("instant of {text} formatted as {out:?}; the same instant in this format is {want:?}"), json!({"input": text, "format": fname, "observed": out, "expected": want}));
+                }
+                routes.push(("from-system-time", Timestamp::from(std::time::SystemTime::from(utc))));
+            }
+            for (route, parsed) in &routes {
+                let route = *route;
+                if instant_ms(parsed) != instant {
+                    a.fail(&format!("C14/timestamp/{route}/construction-changes-instant"), fi, id(), format!("{text} built {route} holds instant {} ms, denotes {instant} ms", instant_ms(parsed)), json!({"text": text}));
                     continue;
                 }
-                match Timestamp::parse(f, &out) {
-                    Ok(back) => {
-                        let b = instant_ms(&back);
-                        let b = if f == TimestampFormat::EpochSeconds { b } else { b };
-                        if b != want_ms {
-                            a.outcome(&format!("{fname}: parse(format) != id"));
-                            a.fail(&format!("C14/timestamp/{fname}/roundtrip-changes-instant"), fi, id(), format!("format gives {out:?}, parsing it back gives instant {b} ms instead of {want_ms} ms"), json!({"text": out}));
-                        } else {
-                            a.outcome(&format!("{fname}: ok ({offset_class})"));
+                // every format: the text denotes the same instant (to the format's precision), and parse∘format = id
+                for (fname, f) in [("date-time", TimestampFormat::DateTime), ("http-date", TimestampFormat::HttpDate), ("epoch-seconds", TimestampFormat::EpochSeconds)] {
+                    let out = match fmt(&parsed, f) {
+                        Ok(o) => o,
+                        Err(e) => {
+                            a.fail(&format!("C14/timestamp/{fname}/format-error"), fi, id(), format!("cannot format: {e}"), json!({"text": text}));
+                            continue;
                         }
+                    };
+                    let want_ms = if f == TimestampFormat::HttpDate { instant.div_euclid(1000) * 1000 } else { instant };
+                    let denotes_ok = match f {
+                        TimestampFormat::DateTime => out == ref_rfc3339(instant),
+                        TimestampFormat::HttpDate => out == ref_http_date(instant),
+                        TimestampFormat::EpochSeconds => out.parse::<f64>().is_ok_and(|x| ((x * 1000.0).round() as i64) == instant),
+                    };
+                    let offset_class = if off == 0 { "utc" } else { "non-utc-offset" };
+                    if !denotes_ok {
+                        a.outcome(&format!("{fname}: text denotes another instant ({offset_class})"));
+                        let want = match f {
+                            TimestampFormat::DateTime => ref_rfc3339(instant),
+                            TimestampFormat::HttpDate => ref_http_date(instant),
+                            TimestampFormat::EpochSeconds => format!("{}", instant as f64 / 1000.0),
+                        };
+                        let fp = if off != 0 && f != TimestampFormat::EpochSeconds { format!("C14/timestamp/{fname}/offset-not-normalised-to-utc") } else { format!("C14/timestamp/{fname}/formatted-text-denotes-another-instant") };
+                        a.fail(&fp, fi, id(), format!("instant of {text} ({route}) formatted as {out:?}; the same instant in this format is {want:?}"), json!({"input": text, "route": route, "format": fname, "observed": out, "expected": want}));
+                        continue;
                     }
-                    Err(e) => {
-                        a.outcome(&format!("{fname}: own output refused"));
-                        let fp = if instant < 0 && f == TimestampFormat::EpochSeconds { "C14/timestamp/epoch-seconds/negative-not-parsed".to_owned() } else { format!("C14/timestamp/{fname}/own-output-refused") };
-                        a.fail(&fp, fi, id(), format!("format gives {out:?}, which parse refuses: {e}"), json!({"text": out}));
+                    match Timestamp::parse(f, &out) {
+                        Ok(back) => {
+                            let b = instant_ms(&back);
+                            let b = if f == TimestampFormat::EpochSeconds { b } else { b };
+                            if b != want_ms {
+                                a.outcome(&format!("{fname}: parse(format) != id"));
+                                a.fail(&format!("C14/timestamp/{fname}/roundtrip-changes-instant"), fi, id(), format!("format gives {out:?}, parsing it back gives instant {b} ms instead of {want_ms} ms"), json!({"text": out}));
+                            } else {
+                                a.outcome(&format!("{fname}: ok ({offset_class}, {route})"));
+                            }
+                        }
+                        Err(e) => {
+                            a.outcome(&format!("{fname}: own output refused"));
+                            let fp = if instant < 0 && f == TimestampFormat::EpochSeconds { "C14/timestamp/epoch-seconds/negative-not-parsed".to_owned() } else { format!("C14/timestamp/{fname}/own-output-refused") };
+                            a.fail(&fp, fi, id(), format!("format gives {out:?}, which parse refuses: {e}"), json!({"text": out}));
+                        }
                     }
                 }
             }
@@ -503,7 +521,7 @@ pub fn run(ctx: &Ctx) -> (Acc, Report) {
     mimes(&mut acc);
     let rep = Report {
         level: "exploration",
-        rule: "timestamps: full product of boundary fields (9 years x 3 months x valid days of {1,28,29,30,31} x 3 hours x 2 minutes x 2 seconds x 3 millisecond values x 8 (thorough 12) UTC offsets) parsed from RFC 3339 and re-emitted in all 3 formats; ranges: all (first,last,suffix,length) over 0..16 (thorough 0..24) and 9 boundary values incl. 2^63-1, every string bytes= + <=6 (thorough 7) symbols over {0,1,9,-,',',' ',+,a}, prefix spellings and 2^63/2^64 boundaries; copy sources: 3 buckets x 22 keys x 5 version ids, in 5 client spellings (segments escaped with '/' kept, everything escaped incl. the separator, each with/without leading slash, every byte escaped) and as the library encodes them; content types: 5x5x6 grammar product + 11 malformed. Oracles: proleptic-Gregorian arithmetic cross-checked per instant with aws-smithy-types, RFC 9110 single-range grammar and interval function, RFC 3986 percent codec. Distinct by text.".into(),
+        rule: "timestamps: full product of boundary fields (9 years x 3 months x valid days of {1,28,29,30,31} x 3 hours x 2 minutes x 2 seconds x 3 millisecond values x 8 (thorough 12) UTC offsets) parsed from RFC 3339 - and built as the same instant from a time::OffsetDateTime carrying that offset and from a SystemTime - and re-emitted in all 3 formats; ranges: all (first,last,suffix,length) over 0..16 (thorough 0..24) and 9 boundary values incl. 2^63-1, every string bytes= + <=6 (thorough 7) symbols over {0,1,9,-,',',' ',+,a}, prefix spellings and 2^63/2^64 boundaries; copy sources: 3 buckets x 22 keys x 5 version ids, in 5 client spellings (segments escaped with '/' kept, everything escaped incl. the separator, each with/without leading slash, every byte escaped) and as the library encodes them; content types: 5x5x6 grammar product + 11 malformed. Oracles: proleptic-Gregorian arithmetic cross-checked per instant with aws-smithy-types, RFC 9110 single-range grammar and interval function, RFC 3986 percent codec. Distinct by text.".into(),
         exhaustive: true,
         extra: json!({}),
         assumptions: vec!["range strings with lenient list syntax (blanks, empty elements), a non-lower-case unit, or a suffix length >= 2^63 are recorded, not judged".into()],
